@@ -19,7 +19,6 @@ package hub
 // ---- leaf accessors (lock; read or write one registry; unlock): inlined ----
 //@ func (h *Hub).connectionForSKI(ski) inline
 //@ func (h *Hub).isSkiConnected(ski) inline
-//@ func (h *Hub).registerConnection(connection) inline
 //@ func (h *Hub).removeConnectionAttemptCounter(ski) inline
 //@ func (h *Hub).getCurrentConnectionAttemptCounter(ski) inline
 //@ func (h *Hub).setConnectionAttemptRunning(ski, active) inline
@@ -113,6 +112,17 @@ package hub
 //@   modifies h.remoteServices[@K()]
 
 // ---- connection end (C11) ----
+// A connection runs from the moment it is created, so it can fail - and report its end, which then finds nothing to
+// forget - before the hub has registered it. The SHIP layer is in the error state before it reports such an end, so a
+// connection that is registered although it has failed already is dropped again at once (R0): the registry never
+// keeps a connection whose end has been reported.
+//@ func (h *Hub).registerConnection(connection) [C11]
+//@   requires @HUBINV(h) && connection != nil
+//@   ensures [C11] R0-registered: connection.$hsState != model.SmeStateError ==> connection.$ski in h.connections && h.connections[connection.$ski] == connection
+//@   ensures [C11] R0-not-a-dead-one: connection.$hsState == model.SmeStateError ==> !(connection.$ski in h.connections)
+//@   ensures [C11] R0-others: forall j: string :: j != connection.$ski ==> (j in h.connections) == (j in old(h.connections)) && h.connections[j] == old(h.connections[j])
+//@   ensures @HUBINV(h)
+//@   modifies h.connections[connection.$ski]
 //@ macro CK() := connection.$ski
 //@ func (h *Hub).HandleConnectionClosed(connection, handshakeCompleted) entry [C11]
 //@   requires connection != nil
